@@ -89,16 +89,6 @@ pub(crate) fn any_arr<T: kani::Arbitrary, const K: usize>() -> [T; K] {
     kani::any::<[T; K]>()
 }
 
-impl kani::Arbitrary for Pad {
-    fn any() -> Self {
-        Pad(kani::any(), kani::any())
-    }
-}
-impl kani::Arbitrary for W24 {
-    fn any() -> Self {
-        W24(kani::any(), kani::any(), kani::any())
-    }
-}
 
 // ---------------------------------------------------------------------------------------------------------------
 // C02: every borrowed view starts at the array's address, has N elements in index order, writes are shared
@@ -223,7 +213,7 @@ macro_rules! reinterp {
 }
 
 // from_slice / from_mut_slice with exact length: no panic, aliases the source, element order, write-through
-// @gen macro=reinterp_exact name=c02_from_slice_exact props=C02 quick=u32,U0,0;u32,U1,1;u32,U4,4 thorough=u8,U12,12;Pad,U5,5;u32,U8,8
+// @gen macro=reinterp_exact name=c02_from_slice_exact props=C02 quick=u32,U0,0;u32,U1,1;u32,U4,4;(),U2,2 thorough=u8,U12,12;Pad,U5,5;u32,U8,8
 macro_rules! reinterp_exact {
     ($name:ident, $T:ty, $N:ty, $n:expr) => {
         #[kani::proof]
@@ -267,7 +257,7 @@ macro_rules! reinterp_exact {
 }
 
 // from_slice / from_mut_slice panic on EVERY length other than N
-// @gen macro=reinterp_panics name=c02_from_slice_panics props=C02 expect=panic quick=u32,U0,0;u32,U1,1;u32,U4,4 thorough=u8,U12,12;u32,U8,8
+// @gen macro=reinterp_panics name=c02_from_slice_panics props=C02 expect=panic quick=u32,U0,0;u32,U1,1;u32,U4,4;(),U0,0;(),U2,2 thorough=u8,U12,12;u32,U8,8;(),U5,5;Pad,U3,3
 macro_rules! reinterp_panics {
     ($name:ident, $T:ty, $N:ty, $n:expr) => {
         #[kani::proof]
